@@ -18,6 +18,7 @@ import (
 	dpf "github.com/lidofinance/dc4bc/fsm/state_machines/dkg_proposal_fsm"
 	sif "github.com/lidofinance/dc4bc/fsm/state_machines/signing_proposal_fsm"
 	"github.com/lidofinance/dc4bc/fsm/types/requests"
+	"github.com/lidofinance/dc4bc/storage"
 
 	"verif/mc/kit"
 	"verif/mc/world"
@@ -29,6 +30,12 @@ func init() { Registry["C11"] = c11 }
 // otherPolynomialDeal builds a self-consistent deal of dealer D for victim V from a SECOND
 // dealer polynomial (same long-term key, same participants and threshold), encrypted to V.
 func otherPolynomialDeal(r *kit.Run, w *world.World, round string, t, D, V int) []byte {
+	deal, _ := otherPolynomial(r, w, round, t, D, V)
+	return deal
+}
+
+// otherPolynomial returns the deal for V and the marshalled public commitments of the second polynomial.
+func otherPolynomial(r *kit.Run, w *world.World, round string, t, D, V int) ([]byte, []byte) {
 	a := w.Airs[D]
 	seed := sha256.Sum256(append([]byte(round), a.M.VerifBaseSeed()...))
 	suite := bls12381.NewBLS12381Suite(seed[:])
@@ -55,7 +62,16 @@ func otherPolynomialDeal(r *kit.Run, w *world.World, round string, t, D, V int) 
 	if err != nil {
 		r.Infra("encrypt deal: %v", err)
 	}
-	return enc
+	var pts [][]byte
+	for _, c := range inst.GetCommits() {
+		cb, err := c.MarshalBinary()
+		if err != nil {
+			r.Infra("marshal commitment: %v", err)
+		}
+		pts = append(pts, cb)
+	}
+	commits, _ := json.Marshal(pts)
+	return enc, commits
 }
 
 type deviation struct {
@@ -96,6 +112,10 @@ func c11(tier string, args []string) int {
 		{"commitments-empty", dpf.StateDkgCommitsAwaitConfirmations, allButD},
 		{"commitments-other-point", dpf.StateDkgCommitsAwaitConfirmations, allButD},
 		{"response-with-complaint", dpf.StateDkgResponsesAwaitConfirmations, allButD},
+		// the dealer tells the victim - in a commitments message addressed to the victim alone and
+		// posted before the broadcast one - the commitments of a second polynomial, and deals the
+		// victim a share of that polynomial: the deal contradicts the commitments it BROADCAST
+		{"commitments-told-privately", dpf.StateDkgCommitsAwaitConfirmations, onlyV},
 	}
 	evals, distinct := 0, 0
 	for _, nt := range cfgs {
@@ -111,7 +131,7 @@ func c11(tier string, args []string) int {
 					if dv.Kind == "deal-encrypted-to-third-party" && nt.n < 3 {
 						continue
 					}
-					if strings.HasPrefix(dv.Kind, "commitments") || dv.Kind == "response-with-complaint" {
+					if (strings.HasPrefix(dv.Kind, "commitments") && dv.Kind != "commitments-told-privately") || dv.Kind == "response-with-complaint" {
 						if V != (D+1)%nt.n {
 							continue // these deviations are not addressed to one victim
 						}
@@ -134,7 +154,39 @@ func runC11(r *kit.Run, n, t, D, V int, dv deviation, allOrders bool) {
 	var run *DKGRun
 	applied := false
 	deviate := func(node int, op *types.Operation) func(res *types.Operation) {
-		if node != D || fsm.State(op.Type) != dv.Phase {
+		if node != D {
+			return nil
+		}
+		if dv.Kind == "commitments-told-privately" {
+			w := run.W
+			switch fsm.State(op.Type) {
+			case dpf.StateDkgCommitsAwaitConfirmations:
+				return func(res *types.Operation) {
+					applied = true
+					_, commits := otherPolynomial(r, w, run.Round, t, D, V)
+					var req requests.DKGProposalCommitConfirmationRequest
+					_ = json.Unmarshal(res.ResultMsgs[0].Data, &req)
+					req.Commit = commits
+					private := res.ResultMsgs[0]
+					private.RecipientAddr = w.Nodes[V].Name
+					private.Data, _ = json.Marshal(req)
+					res.ResultMsgs = append([]storage.Message{private}, res.ResultMsgs...)
+				}
+			case dpf.StateDkgDealsAwaitConfirmations:
+				return func(res *types.Operation) {
+					for i := range res.ResultMsgs {
+						if res.ResultMsgs[i].RecipientAddr == w.Nodes[V].Name {
+							var req requests.DKGProposalDealConfirmationRequest
+							_ = json.Unmarshal(res.ResultMsgs[i].Data, &req)
+							req.Deal, _ = otherPolynomial(r, w, run.Round, t, D, V)
+							res.ResultMsgs[i].Data, _ = json.Marshal(req)
+						}
+					}
+				}
+			}
+			return nil
+		}
+		if fsm.State(op.Type) != dv.Phase {
 			return nil
 		}
 		return func(res *types.Operation) {
